@@ -89,6 +89,7 @@ func c19PipeModel(x *runCtx, r *rand.Rand) {
 		done := make(chan string, 2)
 		go func() { // module goroutine
 			rw := rand.New(rand.NewPCG(seedW, 1))
+			var scratch [2048]byte
 			defer func() {
 				if p := recover(); p != nil {
 					done <- fmt.Sprintf("writer-panic: %v", p)
@@ -106,7 +107,13 @@ func c19PipeModel(x *runCtx, r *rand.Rand) {
 				case "y":
 					err = writer.ForceNewMessage()
 				case "w":
-					_, err = writer.Write(a.data)
+					// as a module does that refills one buffer for every write (io.Copy, fsim.Upload): the bytes belong to the
+					// writer again as soon as Write has returned
+					nb := copy(scratch[:], a.data)
+					_, err = writer.Write(scratch[:nb])
+					for j := 0; j < nb; j++ {
+						scratch[j] ^= 0xa5
+					}
 				}
 				if err != nil && !(a.kind == "w" && errors.Is(err, io.ErrClosedPipe)) {
 					done <- "writer-error: " + err.Error()
